@@ -149,6 +149,11 @@ fn translate_block(
         // slot, return. We always want to have enough bytes to handle a delay
         // slot.
         if offset >= bytes.len() {
+            // A branch whose delay slot lies beyond the bytes we were given cannot
+            // be lifted: its effects are only emitted after the delay slot.
+            if !matches!(branch_delay, TranslateBranchDelay::None) {
+                return Err("Branch delay slot is not available".into());
+            }
             successors.push((address + offset as u64, None));
             break;
         }
@@ -455,28 +460,35 @@ fn translate_block(
             // Before we even attempt to handle an instruction with a delay
             // slot, make sure we have enough bytes left over to handle the
             // delay slot
-            match instruction_id {
+            let has_delay_slot = matches!(
+                instruction_id,
                 capstone::mips_insn::MIPS_INS_B
-                | capstone::mips_insn::MIPS_INS_BEQ
-                | capstone::mips_insn::MIPS_INS_BEQZ
-                | capstone::mips_insn::MIPS_INS_BGEZ
-                | capstone::mips_insn::MIPS_INS_BGTZ
-                | capstone::mips_insn::MIPS_INS_BLTZ
-                | capstone::mips_insn::MIPS_INS_BNE
-                | capstone::mips_insn::MIPS_INS_BNEZ
-                | capstone::mips_insn::MIPS_INS_J
-                | capstone::mips_insn::MIPS_INS_BAL
-                | capstone::mips_insn::MIPS_INS_BGEZAL
-                | capstone::mips_insn::MIPS_INS_BLTZAL
-                | capstone::mips_insn::MIPS_INS_JAL
-                | capstone::mips_insn::MIPS_INS_JALR
-                | capstone::mips_insn::MIPS_INS_JR => {
-                    if bytes.len() == DEFAULT_TRANSLATION_BLOCK_BYTES && offset + 8 >= bytes.len() {
-                        successors.push((address + offset as u64, None));
-                        break;
-                    }
+                    | capstone::mips_insn::MIPS_INS_BEQ
+                    | capstone::mips_insn::MIPS_INS_BEQZ
+                    | capstone::mips_insn::MIPS_INS_BGEZ
+                    | capstone::mips_insn::MIPS_INS_BGTZ
+                    | capstone::mips_insn::MIPS_INS_BLEZ
+                    | capstone::mips_insn::MIPS_INS_BLTZ
+                    | capstone::mips_insn::MIPS_INS_BNE
+                    | capstone::mips_insn::MIPS_INS_BNEZ
+                    | capstone::mips_insn::MIPS_INS_J
+                    | capstone::mips_insn::MIPS_INS_BAL
+                    | capstone::mips_insn::MIPS_INS_BGEZAL
+                    | capstone::mips_insn::MIPS_INS_BLTZAL
+                    | capstone::mips_insn::MIPS_INS_JAL
+                    | capstone::mips_insn::MIPS_INS_JALR
+                    | capstone::mips_insn::MIPS_INS_JR
+            );
+            if has_delay_slot {
+                // A branch in the delay slot of another branch is unpredictable on
+                // MIPS; lifting it would merge the successors of both branches.
+                if !matches!(branch_delay, TranslateBranchDelay::None) {
+                    return Err("Branch in a branch delay slot".into());
                 }
-                _ => {}
+                if bytes.len() == DEFAULT_TRANSLATION_BLOCK_BYTES && offset + 8 >= bytes.len() {
+                    successors.push((address + offset as u64, None));
+                    break;
+                }
             }
 
             // We need to make the conditional branch comparison, save it to a
